@@ -141,7 +141,7 @@ def h_cumsum(en, x, *a, axis=None, **k):
   kq = z3.Int('k!cs')
   # one ghost function per summed vector: two cumulative sums over the same entries (same generic entry term, same length) are the same
   # function (their defining recurrences coincide), so they share the symbol
-  key = (str(z3.simplify(E._real(arrays._num(g(kq))))), str(z3.simplify(n)))
+  key = (str(z3.simplify(E._real(arrays._num(g(kq))), som=True, sort_sums=True)), str(z3.simplify(n)))
   table = en.__dict__.setdefault('ghost_sum_table', {})
   if key in table:
     CS = table[key]
@@ -186,9 +186,11 @@ def seq_tuple_subscript(en, seq, idx):
     return SymMat(seq.length, None, lambda i, j: g(i), f'{seq.name}[:, None]')
   if len(idx) == 2 and idx[0] is None and (idx[1] is Ellipsis or _full(idx[1])):
     return SymMat(None, seq.length, lambda i, j: g(j), f'{seq.name}[None, :]')
-  if len(idx) == 3 and _full(idx[0]) and idx[1] is None and idx[2] is None:
+  if len(idx) == 3 and (_full(idx[0]) or idx[0] is Ellipsis) and idx[1] is None and idx[2] is None:
     en.trusted.add('column mode: v[:, None, None] * field == v * (field at one generic horizontal position), vertical axis leading')
     return seq
+  if len(idx) == 2 and isinstance(idx[0], slice) and idx[1] is Ellipsis:
+    return en.subscript(seq, idx[0])          # x[lo:hi, ...]: a slice along the leading axis
   raise E.Unsupported(f'subscript {idx} of a vector')
 
 
